@@ -137,6 +137,21 @@ def run_check(pid, tier, seed, t0):
                                % x["name"])
             else:
                 undecided.append("%s (%s): %s" % (x["name"], t["mode"], x["detail"]))
+    # ------------------------------------------------------------ custom obligations
+    # (static footprint / frame obligations over the real AST: props.<id>.custom)
+    custom_fail = []
+    if hasattr(prop, "custom"):
+        for c in prop.custom(tier, seed, REPO):
+            obligations += 1
+            if c["ok"]:
+                discharged += 1
+                backends[c.get("backend", "static")] = backends.get(
+                    c.get("backend", "static"), 0) + 1
+                if len(samples) < 12:
+                    samples.append({"obligation": c["name"], "backend": c.get("backend"),
+                                    "detail": c["detail"][:160]})
+            else:
+                custom_fail.append(c)
     # ------------------------------------------------------------ bounded stand-ins
     bounded = []
     bfail = []
@@ -192,6 +207,25 @@ def run_check(pid, tier, seed, t0):
         suffix = "" if reproduced else " no-failing-input-found"
         lines.append("VIOLATION property=%s replay=%s obligation=%s mode=%s%s" % (
             pid, path, x["name"], t["mode"], suffix))
+    for c in custom_fail:
+        fname = re.sub(r"[^A-Za-z0-9_.\[\]-]", "_", c["name"])[:150]
+        path = os.path.join(VERIF, "replays", pid, fname + ".json")
+        rep = {"property": pid, "obligation": c["name"], "kind": "static-obligation",
+               "solver_output": c["detail"], "replay": c.get("replay"),
+               "reproduced_natively": bool(c.get("reproduced"))}
+        json.dump(rep, open(path, "w"), indent=1, default=str)
+        kf = None
+        for f in findings:
+            if f.get("kind") == "static" and re.search(f["obligation_regex"], c["name"]):
+                kf = f
+        if kf is not None:
+            if id(kf) not in known_hit:
+                known_hit.add(id(kf))
+                lines.append("KNOWN-FINDING: property=%s %s" % (kf["property"], kf["what"]))
+            continue
+        nviol += 1
+        lines.append("VIOLATION property=%s replay=%s obligation=%s%s" % (
+            pid, path, c["name"], "" if c.get("reproduced") else " no-failing-input-found"))
     for (b, f) in bfail:
         fname = re.sub(r"[^A-Za-z0-9_.-]", "_", "bounded__%s__%s" % (
             b["name"], f.get("id", len(lines))))[:150]
@@ -245,7 +279,8 @@ def run_check(pid, tier, seed, t0):
         "canaries_refuted": canary_ok,
         "bounded": bounded,
         "undecided": undecided[:50],
-        "refuted": [x["name"] for (_, x) in refuted][:50],
+        "refuted": ([x["name"] for (_, x) in refuted] +
+                    [c["name"] for c in custom_fail])[:50],
         "known_findings_reported": len(known_hit),
         "samples": samples or [{"note": "no obligation discharged"}],
         "explanation": getattr(prop, "EXPLANATION", ""),
